@@ -16,8 +16,9 @@ Fault sites (label = '<hook>:<when>', counted per process role; in a worker the 
            plan:before|after (generate_tasks), merge_bams:before|after, merge:before|after|partial (pysam.merge),
            rmtree:before|after|fail
   job:<contig>: job:before|after (run_tagging_tasks), write, sbf_exit, rehead, sort, index  as above
-Fault kinds: 'exception' (RuntimeError), 'kill' (os._exit(137)); when 'partial' = the real function runs, its output
-file is truncated to half its size, then the fault fires (a sort/merge that dies half way).
+Fault kinds: 'exception' (RuntimeError), 'ioerror' (OSError ENOSPC), 'kill' (os._exit(137)); when 'partial' = the real
+function runs, its output file is truncated to half its size, then the fault fires (a sort/merge that dies half way);
+when 'short' = same, but the output is replaced by a valid BAM holding only the first half of the records.
 """
 import contextlib
 import json
@@ -30,6 +31,10 @@ _STATE = {'fault': None, 'evdir': None, 'parent': None, 'seq': 0, 'counts': {}, 
 
 class InjectedFault(RuntimeError):
     pass
+
+
+class InjectedIOError(OSError):
+    """fault kind 'ioerror': what a full disk or a truncated read raises (errno ENOSPC)."""
 
 
 def emit(ev):
@@ -55,6 +60,36 @@ def _truncate(path):
         pass
 
 
+def _shorten(path):
+    """Leave a READABLE partial file: a valid BAM holding only the first half of the records (what a sort/merge that
+    ran out of space after flushing part of its output can leave behind)."""
+    import pysam
+    try:
+        with pysam.AlignmentFile(path, check_sq=False) as f:
+            header = f.header
+            reads = list(f.fetch(until_eof=True))
+        with pysam.AlignmentFile(path + '.short', 'wb', header=header) as o:
+            for r in reads[:len(reads) // 2]:
+                o.write(r)
+        os.replace(path + '.short', path)
+    except (OSError, ValueError):
+        pass
+
+
+def _spoil(when, target):
+    if target and when == 'partial':
+        _truncate(target)
+    elif target and when == 'short':
+        _shorten(target)
+
+
+def _raise(f, msg):
+    if f.get('kind') == 'ioerror':
+        import errno
+        raise InjectedIOError(errno.ENOSPC, 'No space left on device (%s)' % msg)
+    raise InjectedFault(msg)
+
+
 def point(site, when, target=None):
     """A step boundary: count it, fire the configured fault if this is the chosen one.
 
@@ -68,20 +103,18 @@ def point(site, when, target=None):
         return
     soft = f.get('soft')
     if soft and soft['site'] == site and soft['when'] == when and soft['proc'] == role() and n <= soft['count']:
-        if when == 'partial' and target:
-            _truncate(target)
+        _spoil(when, target)
         emit({'ev': 'fault_fired', 'site': site, 'when': when, 'n': n, 'kind': 'exception', 'soft': True})
-        raise InjectedFault('injected (retryable) at %s:%s #%d' % (site, when, n))
+        _raise(f, 'injected (retryable) at %s:%s #%d' % (site, when, n))
     if f.get('site') != site or f.get('when') != when or f.get('proc') != role() or n != f.get('nth', 1):
         return
-    if when == 'partial' and target:
-        _truncate(target)
+    _spoil(when, target)
     st['fired'] = True
     emit({'ev': 'fault_fired', 'site': site, 'when': when, 'n': n, 'kind': f['kind']})
     if f['kind'] == 'kill':
         sys.stdout.flush()
         os._exit(137)
-    raise InjectedFault('injected at %s:%s #%d' % (site, when, n))
+    _raise(f, 'injected at %s:%s #%d' % (site, when, n))
 
 
 def wrap(site, fn, target_arg=None):
@@ -92,6 +125,7 @@ def wrap(site, fn, target_arg=None):
         if target_arg is not None:
             tgt = target_arg(a, k)
         point(site, 'partial', tgt)
+        point(site, 'short', tgt)
         point(site, 'after')
         return r
     wrapper.__name__ = getattr(fn, '__name__', site)
